@@ -54,7 +54,7 @@ Definition h_fresh (c : hcfg) (root : target) : hstate := h_import c h_empty roo
 Inductive hop :=
 | HInode (o : op)                                   (* requests that only touch the inode table (Model/Inodes.v), except create/readdir/destroy *)
 | HOpen (dir : bool) (i : N) (host_ok : bool)       (* open / opendir *)
-| HRelease (dir : bool) (i h : N)                   (* release / releasedir *)
+| HRelease (dir : bool) (i h : N) (flush : bool)    (* release / releasedir; flush = FUSE_RELEASE_FLUSH: ignored by release() (as are flags, flock_release, lock_owner): no descriptor is allocated, a release cannot fail for lack of descriptors *)
 | HCreate (parent : N) (t : option target) (existed open_ok : bool)
 | HReaddir (plus : bool) (i h : N) (host : option bool) (ents : list (target * bool))
      (* host: None = lseek/getdents failed; Some b = getdents returned a non-empty buffer (b) *)
@@ -117,7 +117,7 @@ Definition hstep (c : hcfg) (s : hstate) (o : hop) : hreply * hstate :=
                 (mount_live s) (fds s + 1) (leaked s)
                 (* do_open records the request's flags (O_RDONLY here); opendir adds O_DIRECTORY *)
                 (mset N.eqb (oflags s) (next_handle s) (if dir then O_DIRECTORY else 0)))
-  | HRelease dir i h =>
+  | HRelease dir i h _ =>
       if (if dir then no_opendir c else no_open c) then (HErr ENOSYS, s)
       else if handle_get s h i then
         (* do_release: the handle (with its descriptor and recorded flags) and, whatever those flags
@@ -195,7 +195,7 @@ Definition hspec_step (l : list (N * N)) (o : hop) (r : hreply) : list (N * N) :
   match o, r with
   | HOpen _ i _, HOk (Some h) => mset N.eqb l h i
   | HCreate _ _ _ _, HCreated i (Some h) => mset N.eqb l h i
-  | HRelease _ _ h, HUnit => mdel N.eqb l h
+  | HRelease _ _ h _, HUnit => mdel N.eqb l h
   | HDestroy _, _ => []
   | _, _ => l
   end.
